@@ -28,8 +28,9 @@ CommentEnc(c) == IF c = "c3" THEN "was \"ROLE\" then AGENT{U007B}primary}" ELSE 
 CommentIds == {"c1", "c2", "c3"}
 FmLines(f) == CASE f = "fm1" -> <<"name: Agent (Specialist)", "tags: [a, b]">>
                 [] f = "fm2" -> <<"title: x">>
+                [] f = "fm3" -> <<"title: x", "", "">>          \* ends with blank lines before the closing --- (they are part of the frontmatter)
                 [] OTHER -> <<>>
-FmText(f) == CASE f = "fm1" -> "name: Agent (Specialist){U000A}tags: [a, b]" [] f = "fm2" -> "title: x" [] OTHER -> "-"
+FmText(f) == CASE f = "fm1" -> "name: Agent (Specialist){U000A}tags: [a, b]" [] f = "fm2" -> "title: x" [] f = "fm3" -> "title: x{U000A}{U000A}" [] OTHER -> "-"
 AnnText(a) == CASE a = "a1" -> "note" [] a = "a2" -> "x,y" [] OTHER -> "-"
 
 IsContainer(it) == it.k \in {"block", "section"}
